@@ -99,6 +99,9 @@ def main():
     os.makedirs(dst, exist_ok=True)
     shutil.copy(patch, os.path.join(dst, "patch.diff"))
     shutil.copy(demo, os.path.join(dst, os.path.basename(demo)))
+    prev = {}
+    if os.path.exists(os.path.join(dst, "meta.json")):
+        prev = json.load(open(os.path.join(dst, "meta.json")))
     meta = {
         "property": meta_in.get("property", name.split("-")[0]),
         "summary": meta_in.get("summary", ""),
@@ -109,7 +112,8 @@ def main():
             "demo_cmd": demo_cmd + f"   (cwd={wt}, PYTHONPATH={wt})",
             "demo_passes_on_clean_tree": rc0 == 0,
             "demo_fails_with_patch": rc1 != 0,
-            "pinned_suite_with_patch": (None if no_suite else {"rc": log["suite_rc"], "summary": log["suite_head"]}),
+            "pinned_suite_with_patch": ((prev.get("confirmed") or {}).get("pinned_suite_with_patch") if no_suite
+                                        else {"rc": log["suite_rc"], "summary": log["suite_head"]}),
         },
         "checks": results,
         "detected_by": sorted(c for c, r in results.items() if isinstance(r, dict) and r["rc"] == 1),
